@@ -31,6 +31,8 @@ type SpecCtx struct {
 	ghost  map[string]ghostInst
 	depth  int
 	owner  *FuncContract
+	inOld  bool // inside old(...): parameter names denote their entry values
+	params map[string]bool
 }
 
 type ghostInst struct {
@@ -394,6 +396,13 @@ func widthOf(t types.Type) (uint, bool, bool) {
 
 // ident resolves a name.
 func (c *SpecCtx) ident(name string) TV {
+	// at a program point inside the body a (reassigned) parameter name denotes its current value;
+	// old(name) denotes the value on entry
+	if c.at != nil && !c.inOld && c.params[name] {
+		if tv, ok := c.ssaName(name); ok {
+			return tv
+		}
+	}
 	if tv, ok := c.vars[name]; ok {
 		return tv
 	}
@@ -772,6 +781,7 @@ func (c *SpecCtx) call(n *ECall) TV {
 	case "old":
 		cc := c.child()
 		cc.heap = c.old
+		cc.inOld = true
 		return cc.eval(n.Args[0])
 	case "len":
 		a := c.eval(n.Args[0])
